@@ -18,7 +18,7 @@
    repaired code and every clause is now proved at full strength, without the former premises. *)
 From Sdns Require Import Common.Base Gen.C19 C19.Model
   C19.Proofs_arith C19.Proofs_policy C19.Proofs_edns C19.Proofs_cache C19.Proofs_tree
-  Common.GoList C19.WireOpt C19.Proofs_wire.
+  Common.GoList C19.WireOpt C19.Proofs_wire C19.WireReq C19.Proofs_wirereq.
 Open Scope N_scope.
 
 (* ---------------------------------------------------------------- translator ties *)
@@ -119,6 +119,30 @@ Theorem client_ecs_marks_the_tree : forall b remote extra,
   has_ecs (all_options extra) = true -> fst (edns_serve b remote extra) = true.
 Proof. exact marker_set_when_client_sent_ecs. Qed.
 Print Assumptions client_ecs_marks_the_tree.
+
+(* the strict (wire-born) entry: the TRANSLATED option walk of Request.parseWireOPT, for any octets and
+   any amount of fuel: when it runs to the end (the packet is admitted) the request is marked as
+   carrying ECS exactly when an option with code 8 lies between off and end — whatever its family
+   (0 = the opt-out form, 1, 2) — and likewise NSID (3) and edns-tcp-keepalive (11) *)
+Theorem strict_parser_marks_every_subnet_option :
+  forall fuel lf r off raw u x v fl rd end_ r' off' raw' u' x' v' fl' rd' end',
+  go_Request_parseWireOPT_loop1 fuel lf r off raw u x v fl rd end_ =
+    (GoNext, (r', off', raw', u', x', v', fl', rd', end')) ->
+  exists cs, opt_codes_at lf raw off end_ = Some cs /\
+    T_Request_hasECS r' = T_Request_hasECS r || has_code 8%N cs /\
+    T_Request_hasNSID r' = T_Request_hasNSID r || has_code 3%N cs /\
+    T_Request_hasKeepalive r' = T_Request_hasKeepalive r || has_code 11%N cs.
+Proof. exact loop_marks. Qed.
+Print Assumptions strict_parser_marks_every_subnet_option.
+
+Theorem strict_entry_has_ecs_iff_option_present : forall raw off r,
+  wire_opt_walk raw off = (GoNext, r) ->
+  exists cs, opt_codes_at (S (length raw)) raw (off + 11)%Z (go_len raw) = Some cs /\
+    T_Request_hasECS r = has_code 8%N cs /\
+    T_Request_hasNSID r = has_code 3%N cs /\
+    T_Request_hasKeepalive r = has_code 11%N cs.
+Proof. exact wire_walk_marks. Qed.
+Print Assumptions strict_entry_has_ecs_iff_option_present.
 
 (* ---------------------------------------------------------------- no_ecs_to_client *)
 (* no OPT record of any reply written to a client carries a subnet option — whatever the
